@@ -1,6 +1,11 @@
 (* C04 proofs: structure of split/diff/combine, polynomial exactness, linearity, ring form. *)
 From Coq Require Import Field.
-From DF Require Import Prelude FieldK NDArray Diff ListLemmas.
+From DF Require Import Prelude Constants_gen FieldK NDArray Diff ListLemmas.
+
+Ltac norm_stencil :=
+  unfold lincomb, d2_first3, d2_first4, d2_last3, d2_last4, d2_interior;
+  cbv [map2 fold_right fz fnat Pos.to_nat Pos.iter_op Init.Nat.add].
+
 
 Section C04.
 Variable K : FOps.
@@ -163,7 +168,7 @@ Proof.
   intros Hh HL Ha j Hj. unfold d2_at.
   destruct (Nat.ltb_spec (length a) 4) as [C | _]; [lia|].
   destruct (Nat.eqb_spec j 0) as [E0 | N0].
-  - subst j. rewrite !Ha by lia. unfold cubic, five, four, f2. simpl fnat. field. exact Hh.
+  - subst j. rewrite !Ha by lia. norm_stencil. unfold cubic, f2. field. exact Hh.
   - destruct (Nat.eqb_spec j (length a - 1)) as [E1 | N1].
     + destruct (length a) as [|[|[|[|m]]]] eqn:EL; try lia.
       assert (j = S (S (S m))) by lia. subst j.
@@ -171,11 +176,13 @@ Proof.
       replace (S (S (S (S m))) - 2)%nat with (S (S m)) by lia.
       replace (S (S (S (S m))) - 3)%nat with (S m) by lia.
       replace (S (S (S (S m))) - 4)%nat with m by lia.
-      rewrite !Ha by lia. unfold cubic, five, four, f2. rewrite !fnat_S. field. exact Hh.
+      rewrite !Ha by lia. rewrite !fnat_S. generalize (fnat K m). intros t.
+      norm_stencil. unfold cubic, f2. field. exact Hh.
     + destruct j as [|j']; [lia|].
       replace (S j' + 1)%nat with (S (S j')) by lia.
       replace (S j' - 1)%nat with j' by lia.
-      rewrite !Ha by lia. unfold cubic, f2. rewrite !fnat_S. field. exact Hh.
+      rewrite !Ha by lia. rewrite !fnat_S. generalize (fnat K j'). intros t.
+      norm_stencil. unfold cubic, f2. field. exact Hh.
 Qed.
 
 (* three-cell runs: exact for degree <= 2 *)
@@ -184,8 +191,9 @@ Theorem d2_exact_quadratic_three c0 c1 c2 x0 h (a : list K) :
   (forall j, (j < 3)%nat -> nth j a 0 = quad c0 c1 c2 (x0 + fnat K j * h)) ->
   forall j, (j < 3)%nat -> d2_at K a h j = two * c2.
 Proof.
-  intros Hh HL Ha j Hj. unfold d2_at. rewrite HL. simpl.
-  rewrite !Ha by lia. unfold quad, f2. simpl fnat. field. exact Hh.
+  intros Hh HL Ha j Hj. unfold d2_at. rewrite HL. cbn [Nat.ltb Nat.leb Nat.sub].
+  destruct j as [|[|[|j]]]; try lia; cbn [Nat.eqb Nat.sub Nat.add];
+    rewrite !Ha by lia; norm_stencil; unfold quad, f2; field; exact Hh.
 Qed.
 
 (* d_run delivers those values *)
